@@ -19,9 +19,12 @@ Fixpoint skel_of (f : nat) (l : list (nat * stmt)) : option stmt :=
    possible raise points (validates the translator's classification) *)
 Definition check_case (c : case) : nat :=
   let '(f, line, hooks_left, changed) := c in
-  match skel_of f skeletons with
+  match skel_of f (skeletons ++ helper_skeletons) with
   | None => 1
   | Some p =>
-      verdict (clean p && (Nat.eqb line 0 || existsb (Nat.eqb line) (raise_lines p)))
+      (* model prediction: every API skeleton (helpers inlined) is clean, so no crash point leaks;
+         the injected line must be a raise point of the function it lies in *)
+      verdict (forallb (fun fp => clean (snd fp)) skeletons &&
+               (Nat.eqb line 0 || existsb (Nat.eqb line) (raise_lines p)))
               (negb hooks_left && negb changed)
   end.
